@@ -1,0 +1,12 @@
+//go:build verif
+
+// Contracts for gzv (contract-based deductive verification, /verif). Comment-only file.
+package stat
+
+// C11: the metrics container hands everything it has collected over exactly once - tasks, accumulated duration AND the drop
+// count are all reset, so nothing is reported again on the next flush
+//@ func (c *metricsContainer) RemoveAll
+//@   property C11
+//@   requires c != nil
+//@   ensures c.tasks == nil && c.duration == 0 && c.drops == 0
+//@   ensures result.(tasksDurationPair).drops == old(c.drops) && result.(tasksDurationPair).duration == old(c.duration)
